@@ -46,12 +46,8 @@ MinTs(Files, u) == SetMin(UNION { { r.ts : r \in Image(Files[k], u) } : k \in DO
 (***************************************************************************)
 (* C12: iteration numbers and trimming.                                    *)
 (***************************************************************************)
-\* profiler-step annotations are named "ProfilerStep#<n>"; generated traces use n < 128
-StepNameOf(n) == "ProfilerStep#" \o ToString(n)
-StepNumbers == 0..127
-AllStepNames == { StepNameOf(n) : n \in StepNumbers }
+\* StepNameOf, StepNumbers, AllStepNames, IsStepName: see TraceModel.tla
 StepNoFn == [ s \in AllStepNames |-> CHOOSE n \in StepNumbers : StepNameOf(n) = s ]
-IsStepName(name) == name \in AllStepNames
 StepNo(name) == StepNoFn[name]
 Steps(R) == { e \in R : IsStepName(e.name) }
 
